@@ -79,6 +79,13 @@ theorem cat_bytes (input : List Char) (hne : input ≠ []) :
 a byte string decodes to a text iff it is that text's UTF-8 encoding (shortest forms only, no surrogates) -/
 theorem utf8_roundtrip (bs : List UInt8) (s : List Char) : utf8Decode bs = some s ↔ bs = utf8Encode s := decode_iff bs s
 
+/-- the decoder at work: a four-byte character and a line feed; and what it refuses — an overlong form, a surrogate,
+a value above U+10FFFF, a truncated sequence, a stray continuation byte (`decide` on concrete bytes: tests, not theorems) -/
+example : utf8Decode [0xF0, 0x9F, 0x98, 0x80, 0x0A] = some [Char.ofNat 0x1F600, '\n'] := by decide
+example : utf8Decode [0xC0, 0x80] = none ∧ utf8Decode [0xED, 0xA0, 0x80] = none ∧ utf8Decode [0xF4, 0x90, 0x80, 0x80] = none ∧
+    utf8Decode [0xE4, 0xBD] = none ∧ utf8Decode [0x80] = none := by decide
+example : decodeLines [0x41, 0x0A, 0xFF, 0x0A, 0x42] = [['A', '\n'], [], ['B']] := by decide
+
 /-- **every valid UTF-8 input, byte for byte**: whatever bytes the strict decoder accepts (and at least one character),
 `cat` halts normally having written exactly those bytes, and nothing to standard error -/
 theorem cat_valid_utf8 (bytes : List UInt8) (text : List Char) (hv : utf8Decode bytes = some text) (hne : bytes ≠ []) :
